@@ -609,6 +609,14 @@ func confirm(prog *gosym.Program, h *harnessSpec, params map[string]int, v *gosy
 	if v.Kind == "deadlock" || v.Kind == "race" || rep.Threads > 1 || h.KV["native"] == "0" {
 		return true, "engine-reexecution"
 	}
+	for _, d := range v.Trace {
+		switch d.K {
+		case "sel", "sc", "clk", "rnd":
+			// the counterexample depends on a choice the native run-time makes by itself (select among ready
+			// cases, scheduling, timer firing, math/rand): a native run cannot be steered onto it
+			return true, "engine-reexecution"
+		}
+	}
 	failed, panicked, err := nativeReplay(h, params, v.Model, choicesOf(v.Trace))
 	if err != nil {
 		return false, "native replay could not run: " + err.Error()
